@@ -515,7 +515,7 @@ class _Parser(object):
         if operator == '$strcasecmp':
             if len(values) != 2:
                 raise OperationFailure('strcasecmp must have 2 items')
-            a, b = str(self.parse(values[0])), str(self.parse(values[1]))
+            a, b = str(self.parse(values[0])).upper(), str(self.parse(values[1])).upper()
             return 0 if a == b else -1 if a < b else 1
         if operator == '$regexMatch':
             if not isinstance(values, dict):
